@@ -888,20 +888,42 @@ func cmdReplay(path string) int {
 }
 
 func cmdSelftest() int {
-	b := build(false, true)
+	b := build(true, true)
 	defer b.cleanup()
 	base := envSeed()
-	bad := ""
-	for prop, fams := range scen.Families {
-		if s := determinism(b, prop, "quick", fams[:1], base, 16, false); s != "" {
-			bad = prop + ": " + s
-			break
+	// every family once, under a property that runs it
+	famProp := map[string]string{}
+	var props []string
+	for p := range scen.Families {
+		props = append(props, p)
+	}
+	sort.Strings(props)
+	for _, p := range props {
+		for _, f := range scen.Families[p] {
+			if _, ok := famProp[f]; !ok {
+				famProp[f] = p
+			}
 		}
 	}
-	if bad != "" {
-		fmt.Println("vcheck: DETERMINISM FAILURE: " + bad)
-		return 2
+	var fams []string
+	for f := range famProp {
+		fams = append(fams, f)
 	}
-	fmt.Printf("vcheck: selftest ok: %d (family, seed) pairs executed 3x at GOMAXPROCS 1/4/16 with identical logs\n", len(detSeen))
+	sort.Strings(fams)
+	n := 16
+	if s := os.Getenv("VCHECK_SELFTEST_SEEDS"); s != "" {
+		if v, err := strconv.Atoi(s); err == nil {
+			n = v
+		}
+	}
+	for _, f := range fams {
+		p := famProp[f]
+		if bad := determinism(b, p, "quick", []string{f}, base, n, scen.NeedsRace(p)); bad != "" {
+			fmt.Println("vcheck: DETERMINISM FAILURE: " + p + "/" + bad)
+			return 2
+		}
+		fmt.Printf("vcheck: family %-9s ok (%d seeds x GOMAXPROCS 1/4/16)\n", f, n)
+	}
+	fmt.Printf("vcheck: selftest ok: %d (family, seed) pairs, each executed 3x in separate processes with identical event logs and results\n", len(detSeen))
 	return 0
 }
